@@ -26,7 +26,7 @@ class Prov:
         return self._rd[func.qual]
 
     # ---- intra-procedural expansion -------------------------------------------------------------
-    def expand(self, expr: ast.AST, func: FuncInfo, at: ast.AST | Node | None = None, depth: int = 3,
+    def expand(self, expr: ast.AST, func: FuncInfo, at: ast.AST | Node | None = None, depth: int = 8,
                _busy: frozenset[int] = frozenset()) -> list[ast.expr]:
         """All alternative expansions of `expr` evaluated at statement `at` of `func`."""
         cfg: CFG = self.ctx.cfg(func)
@@ -109,8 +109,9 @@ class Prov:
     def _name(self, e: ast.Name, func: FuncInfo, node: Node, depth: int, busy: frozenset[int]) -> list[ast.expr]:
         rd = self.rd(func)
         defs = rd.defs(e.id, node)
-        if not defs:
-            return [e]  # global / builtin / module-level name
+        if not defs or depth <= 0:
+            return [e]  # global / builtin / module-level name (or expansion depth exhausted)
+        depth -= 1
         out: list[ast.expr] = []
         for d in defs:
             if d.id in busy:
